@@ -133,6 +133,8 @@ def regenerate(ctx):
         special_unchanged = t2.layers.has_entry("*ADSK_PROBE")
     except const.DXFValueError:
         special_unchanged = False
+    # probes for the fixes in code that the model does not describe (per-entity overrides, Importer): one tiny transfer
+    fx = probe_fixes()
     strs = lambda xs: lean_list(f"[{', '.join(str(ord(ch)) for ch in x)}]" for x in xs)
     sample_special = [n for n in ["0", "DEFPOINTS", "*ADSK_SYSTEM_LIGHTS", "*ADSK_CONSTRAINTS", "*ADSK", "ADSK", "*adsk_x", "L1", ""]
                       if validator.is_adsk_special_layer(n)]
@@ -168,6 +170,15 @@ def discardsContentOfKeptBlock : Bool := {str(discards).lower()}
     policy, and "<xref>$0$*NAME" is rejected by the layer-name validator) -/
 def specialLayerAddedUnchanged : Bool := {str(special_unchanged).lower()}
 
+/-- behavioural probes of fixed defects in code outside the model (a tiny XREF_PREFIX transfer / Importer run on the real
+    code at generation time; `true` = fixed behaviour) -/
+def layerMapWritesClone : Bool := {str(fx["layer"]).lower()}
+def nameMapsCaseInsensitive : Bool := {str(fx["case"]).lower()}
+def xrecordPointersMapped : Bool := {str(fx["xrecord"]).lower()}
+def leaderDimstyleMapped : Bool := {str(fx["leader"]).lower()}
+def dimensionLeavesNoOrphanBlock : Bool := {str(fx["dimension"]).lower()}
+def importerDuplicatesNewEntry : Bool := {str(fx["importer"]).lower()}
+
 end EzdxfVerif.Gen.XrefTables
 """
     # the constants above that are literals in the code are re-checked against the source text
@@ -180,6 +191,45 @@ end EzdxfVerif.Gen.XrefTables
     if "return not bool(INVALID_LAYER_NAME_CHARACTERS.intersection(chars))" not in v:
         raise ValueError("validator.is_valid_table_name changed: revisit Model/Xref.lean isAdskSpecial")
     ctx.write_gen("XrefTables", text, srcs)
+
+
+def probe_fixes():
+    import ezdxf
+    from ezdxf import xref
+    from ezdxf.addons.importer import Importer
+
+    src = ezdxf.new()
+    src.entitydb.handles.reset("%X" % SRC_BASE)
+    msp = src.modelspace()
+    src.linetypes.add("DASHX", pattern=[0.5, 0.25, -0.25])
+    src.layers.add("L1", linetype="DASHX")
+    src.dimstyles.new("DS1")
+    line = msp.add_line((0, 0), (1, 1), dxfattribs={"layer": "l1"})
+    circle = msp.add_circle((0, 0), 1)
+    line.new_extension_dict().add_xrecord("R").reset([(330, circle.dxf.handle)])
+    msp.add_leader([(0, 0), (1, 1), (2, 1)], dimstyle="DS1")
+    msp.add_linear_dim(base=(0, 2), p1=(0, 0), p2=(3, 0)).render()
+    nd = sum(1 for b in src.blocks if b.name.startswith("*D"))
+    tgt = ezdxf.new()
+    ld = xref.Loader(src, tgt, conflict_policy=xref.ConflictPolicy.XREF_PREFIX)
+    ld.load_modelspace()
+    out = {k: False for k in ("layer", "case", "xrecord", "leader", "dimension", "importer")}
+    try:
+        ld.execute(xref_prefix="x")
+        tm = list(tgt.modelspace())
+        out["layer"] = src.layers.get("L1").dxf.linetype == "DASHX" and tgt.layers.get("x$0$L1").dxf.linetype == "x$0$DASHX"
+        out["case"] = tm[0].dxf.layer == "x$0$L1"
+        xr = tm[0].get_extension_dict().dictionary.get("R")
+        out["xrecord"] = all(t.value == "0" or (t.value in tgt.entitydb and int(t.value, 16) < SRC_BASE) for t in xr.tags if t.code == 330)
+        out["leader"] = next(e for e in tm if e.dxftype() == "LEADER").dxf.dimstyle == "x$0$DS1"
+        out["dimension"] = sum(1 for b in tgt.blocks if b.name.startswith("*D")) == nd
+    except Exception:  # noqa: a crash means "not the fixed behaviour"
+        pass
+    s2, t2 = ezdxf.new(), ezdxf.new()
+    lay = s2.layers.add("IMP")
+    Importer(s2, t2).import_table("layers", "IMP")
+    out["importer"] = lay.doc is s2
+    return out
 
 
 # ================================================================== generators
